@@ -124,6 +124,22 @@ def split_blocks(events):
     return blocks
 
 
+def own_restarts_in_a_row(blocks, bi):
+    """how often the first step of block bi has been restarted in a row, counted from the trace (not from the counter the
+    code keeps): consecutive preceding blocks that were restarted from a step with the same start time"""
+    t = sorted(blocks[bi]['pre'], key=lambda e: e['slot'])[0]['time']
+    n = 0
+    for bj in range(bi - 1, -1, -1):
+        pre = {e['slot']: e for e in blocks[bj]['pre']}
+        flagged = sorted(e['slot'] for e in blocks[bj]['post'] if e.get('restart'))
+        # the step the block was restarted FROM (later steps are only carried along)
+        if flagged and pre.get(flagged[0], {}).get('time') == t:
+            n += 1
+        else:
+            break
+    return n
+
+
 def check_blocks(r, tag, blocks, Tend, mr, rffs, crash, requested, raised):
     """trace invariants P1-P4.  requested(block_index, slot) -> True/False/None (ground truth of what was asked for)"""
     prev = None
@@ -150,6 +166,9 @@ def check_blocks(r, tag, blocks, Tend, mr, rffs, crash, requested, raised):
                 r.check(all(flags), 'restart-from-first-step', f'{tag}: block {bi} restart flags {flags} with restart_from_first_step')
         # ground truth: no swallowed request
         first_budget_exhausted = (pre[0].get('restarts_in_a_row') or 0) >= mr
+        # the counter the code keeps must be the number of consecutive restarts of that step seen in the trace
+        own = own_restarts_in_a_row(blocks, bi)
+        r.check((pre[0].get('restarts_in_a_row') or 0) == own, 'retry-counter-counts-restarts-in-a-row', f'{tag}: block {bi} starts at t={pre[0]["time"]!r} with restarts_in_a_row={pre[0].get("restarts_in_a_row")}, but the step starting there has been restarted {own} time(s) in a row')
         for e in post:
             req = requested(bi, e['slot'], e)
             if req and not e.get('restart'):
